@@ -18,6 +18,7 @@ Definition chunk_pause (nsplits highc : Z) : bool := (highc <? nsplits).
 Definition empty_chunk (total pos : Z) : bool := (total =? pos).
 Definition take_partial (avail n : Z) : bool := (negb (n =? (-1))) && (n <? avail).
 Definition split_stale (s0 cursor : Z) : bool := (s0 <? cursor).
+Definition resume_open (eof : bool) : bool := negb eof.
 Definition resume_size (size low : Z) : bool := (size <? low).
 Definition resume_bytes (size low : Z) (buffer_empty : bool) : bool := resume_size size low || buffer_empty.
 Definition resume_chunks (nsplits lowc : Z) : bool := (nsplits <? lowc).
